@@ -27,7 +27,7 @@ fn main() {
         "Cases are operation histories (constructor, then set / range-modify / ask / lower_bound / lower_bound_rev / debug / rebuild) \
          on a Segtree instantiated with one of 14 item algebras (built-ins, nested Combinators, and harness items with a free, \
          non-commutative merge and non-commuting modifiers), interpreted in lock-step with a plain Vec model; every ask must equal the \
-         in-order fold of the model, and after the history every element and the whole range are compared. Sizes: 1..=130 biased to 2^k-1, 2^k, 2^k+1, plus a class of large trees (131..2^12 quick, ..2^16 thorough) with short histories, plus constructors fed with items handed out by the tree itself (ask(i,i) results). Non-trivial = a range modify \
+         in-order fold of the model, and after the history every element and the whole range are compared. Sizes: 1..=130 biased to 2^k-1, 2^k, 2^k+1, plus a class of large trees (131..2^12 quick, ..2^15 thorough) with short histories, plus constructors fed with items handed out by the tree itself (ask(i,i) results). Non-trivial = a range modify \
          covering a strict sub-range (l>0 or r<n-1) is later observed by an ask or set overlapping it with no rebuild in between. \
          Distinct = distinct (sub-check, case) by SipHash of the case value.",
     );
@@ -93,8 +93,8 @@ fn main() {
         ctx.prop(&name, "segtree-history", per_alg, case(Some(alg), max_ops), |c| run_case(c, Focus::Fold));
     }
     // large trees (depth up to 13 quick / 17 thorough): few, short histories
-    let lg = ctx.n(12, 16) as u32;
-    ctx.prop_split("histories-large-trees", "segtree-history", ctx.n(250, 12_000), ctx.parts(), case_large(None, lg, 40).boxed(), |c| run_case(c, Focus::Fold));
+    let lg = ctx.n(12, 15) as u32;
+    ctx.prop_split("histories-large-trees", "segtree-history", ctx.n(250, 3_000), ctx.parts(), case_large(None, lg, 40).boxed(), |c| run_case(c, Focus::Fold));
     // huge trees (height 21..23): SumAdd with non-negative values, prefix-sum oracle
     ctx.replayer("segtree-huge", |v| run_huge(&serde_json::from_value::<HugeCase>(v.clone()).expect("case"), Focus::Fold));
     ctx.prop_cfg("huge-trees", "segtree-huge", ctx.n(6, 60), 60, huge_case(vec![1 << 22, (1 << 21) + 1, 3 * (1 << 20) + 5, (1 << 22) + 7], 40), |c| run_huge(c, Focus::Fold));
